@@ -135,6 +135,10 @@ def _apply_edit(H, ed):
             H.remove_species(ed[1], prune_orphans=ed[2])
         elif k == "mol":
             H.assign_mol(ed[1], _molval(ed[2]))
+        elif k == "molmap":
+            H.set_mol_map({a: _molval(b) for a, b in ed[1]}, strict=ed[2], clear_existing=ed[3])
+        elif k == "merge":
+            H.merge(build(ed[1]), prefix_edges=ed[2])
         else:
             raise AssertionError(ed)
     except (KeyError, ValueError):
@@ -767,6 +771,17 @@ def _edit(ed):
         return "ERmSp %s %s" % (cs(ed[1]), cbool(ed[2]))
     if k == "mol":
         return "EMol %s %s" % (cs(ed[1]), cs(_molenc(_molval(ed[2]))))
+    if k == "molmap":
+        d = {}
+        for a, b in ed[1]:
+            d[a] = b                      # a Python dict: the last entry of a repeated key wins, at the first position
+        return "EMolMap %s %s %s" % (clist([cpair(cs(a), cs(_molenc(_molval(b)))) for a, b in d.items()]), cbool(ed[2]), cbool(ed[3]))
+    if k == "merge":
+        o = ed[1]
+        return "EMerge %s %s %s %s" % (
+            clist([cs(x) for x in o.get("kept", [])]),
+            clist([cpair(copt(None if e is None else cs(e)), cs(rule or ""), _side(l), _side(r)) for e, rule, l, r in o.get("rxns", [])]),
+            clist([cpair(cs(a), cs(_molenc(_molval(b)))) for a, b in o.get("mol", [])]), cbool(ed[2]))
     raise AssertionError(ed)
 
 
@@ -1364,7 +1379,10 @@ def _gen_cases(tier, rng):
         sp = sorted({q[0] for _, _, l, r in net["rxns"] for q in l + r}) or ["A"]
         one = [["rm_sp", rng.choice(shared), False], ["rm_sp", rng.choice(shared), False], ["rm_sp", rng.choice(sp), True],
                ["rm_rxn", rng.choice(["r_1", "R1_1", "e0", "x"])], ["add", None, "r", [[rng.choice(sp), 2]], [["Nw", 1]]],
-               ["mol", rng.choice(sp), "CC"]][t % 6]
+               ["mol", rng.choice(sp), "CC"],
+               ["merge", _rand_net(rng, nsp=2, nrx=rng.randint(0, 2)), rng.random() < 0.5],
+               ["molmap", [[rng.choice(sp + ["nope"]), "m%d" % j] for j in range(rng.randint(0, 2))], False, rng.random() < 0.5],
+               ["molmap", [[rng.choice(sp), ["i", 0]]], True, False]][t % 9]
         bk = [["backend", a, b, c] for a in (True, False) for b in (True, False) for c in (True, False)]
         rng.shuffle(bk)
         cases.append(dict(kind="edit-held-view", net=net, views=bk[:5], edits=[one], views2=bk[:5] + bk[:2], held=True))
